@@ -248,17 +248,19 @@ Definition is_set (sc : schema) (o : obj) (i : nat) : bool :=
   end.
 
 (* ---- side conditions ---- *)
-(* every message (recursively) has one raw attribute per declared field: true of every Python object *)
+(* every message (recursively) has one raw attribute per declared field, and the elements of a repeated field /
+   the values of a map are not themselves lists or dicts: true of every Python object *)
+Definition flat (v : pv) : bool := match v with PList _ | PDict _ => false | _ => true end.
 Fixpoint shaped (sc : schema) (v : pv) {struct v} : bool :=
   match v with
   | PMsg (Obj c raw _ _ _) =>
       Nat.eqb (length raw) (length (cfields (get_class sc c))) && forallb (shaped sc) raw
-  | PList l => forallb (shaped sc) l
+  | PList l => forallb (fun y => flat y && shaped sc y) l
   | PDict d =>
       (fix go (d : list (pv * pv)) : bool :=
          match d with
          | [] => true
-         | (_, y) :: d' => shaped sc y && go d'
+         | (_, y) :: d' => flat y && shaped sc y && go d'
          end) d
   | _ => true
   end.
@@ -282,3 +284,30 @@ Definition cv_presence (r : option (bool * list (option nat) * list nat)) : cv :
 
 Definition cv_is_set (sc : schema) (o : obj) : cv :=
   CL (map (fun i => cbool (is_set sc o i)) (seq 0 (length (cfields (get_class sc (ocls o)))))).
+
+(* ---- the copy of the pinned tree (before commit 0ef9c00), kept for the refutation witness: kwargs = every raw
+        attribute that is not PLACEHOLDER, through the constructor (whose __setattr__ raises the flag of a field-less
+        message value and whose __post_init__ re-derives _group_current), then the flag and the unknown bytes of the
+        original ---- *)
+Definition init_arg (sc : schema) (v : pv) : pv := if fieldless sc v then mark_sow v else v.
+Definition copy_ctor (sc : schema) (o : obj) : obj :=
+  let 'Obj c raw sow unk _ := o in
+  let 'Obj c' raw' _ _ cur' := post_init sc c (map (init_arg sc) raw) in
+  Obj c' raw' sow unk cur'.
+
+(* ---- when is == reflexive: no NaN inside a container (CPython's identity shortcut is not modelled, K7) and
+        no two keys of a dict that compare equal (true of every Python dict) ---- *)
+Fixpoint eq_refl_ok (sc : schema) (v : pv) {struct v} : bool :=
+  match v with
+  | PMsg (Obj _ raw _ _ _) => forallb (eq_refl_ok sc) raw
+  | PList l => forallb (fun y => negb (pv_is_nan y) && eq_refl_ok sc y) l
+  | PDict d =>
+      (fix go (d : list (pv * pv)) : bool :=
+         match d with
+         | [] => true
+         | (k, y) :: d' =>
+             negb (pv_is_nan k) && eq_refl_ok sc k && negb (pv_is_nan y) && eq_refl_ok sc y &&
+             negb (existsb (fun kv => pv_eq sc k (fst kv) || pv_eq sc (fst kv) k) d') && go d'
+         end) d
+  | _ => true
+  end.
